@@ -405,6 +405,8 @@ package websocket
 //@ ensures[C09.closesent] imp(result == nil && frameType == 8, c.writeErr != nil)
 //@ assert at call:SetWriteDeadline#1[C09+C11.nowrite]: held(c.mu) && !c.g_closeSent && !c.g_wfailed && c.writeErr == nil
 //@ assert at call:SetWriteDeadline#1[C10.deadline]: arg1 == deadline
+//@ assert at call:Write#1[C10.deadline]: c.conn.g_wdl == !(deadline.wall == 0 && deadline.ext == 0 && deadline.loc == nil)
+//@ assert at call:writeBufs#1[C10.deadline]: c.conn.g_wdl == !(deadline.wall == 0 && deadline.ext == 0 && deadline.loc == nil)
 //@ assert at call:Write#1[C09+C11.nowrite]: held(c.mu) && !c.g_closeSent && !c.g_wfailed
 //@ assert at call:writeBufs#1[C09+C11.nowrite]: held(c.mu) && !c.g_closeSent && !c.g_wfailed
 //@ cover Write C11.oneframe
@@ -438,6 +440,7 @@ package websocket
 //@ ensures[C09.closesent] imp(result == nil && messageType == 8, c.writeErr != nil)
 //@ assert at call:SetWriteDeadline#1[C09+C11.nowrite]: held(c.mu) && !c.g_closeSent && !c.g_wfailed && c.writeErr == nil
 //@ assert at call:SetWriteDeadline#1[C10.deadline]: arg1 == deadline
+//@ assert at call:Write#1[C10.deadline]: c.conn.g_wdl == !(deadline.wall == 0 && deadline.ext == 0 && deadline.loc == nil)
 //@ assert at call:Write#1[C09+C11.nowrite]: held(c.mu) && !c.g_closeSent && !c.g_wfailed
 //@ cover Write C11.oneframe
 //@ assert at call:Write#1[C11.oneframe]: c.g_cs == 0 && arg0 == c.conn && held(c.mu)
